@@ -326,6 +326,18 @@ package ipfscluster
 //@   modifies nothing
 
 // "re-allocated ... with all of the pin's options preserved ... no pin is ever removed by this process"
+// "alertsHandler: record alert, ping alerts only, closest-peer test, repin": a pin is re-pinned on an alert only if the
+// alert is a ping alert, re-pinning is enabled, this peer is no follower, the failed peer holds the pin and this peer
+// is the closest one for that CID; the peer excluded is the one the alert names
+//@ func (c *Cluster) alertsHandler
+//@   property C10
+//@   requires c != nil && pinsetInv()
+//@   at_call Cluster.repinFromPeer assert [only-ping-alerts] alrt.Name == pingMetricName
+//@   at_call Cluster.repinFromPeer assert [only-when-enabled-and-not-follower] !c.config.FollowerMode && !c.config.DisableRepinning
+//@   at_call Cluster.repinFromPeer assert [only-pins-the-failed-peer-holds] in(alrt.Peer, elems(pin.Allocations)) && p == alrt.Peer
+//@   at_call Cluster.repinFromPeer assert [only-by-the-closest-peer] uf("isClosest", "bool", distance.local, distance.otherPeers, pin.Cid)
+//@   modifies *
+
 // repinOffered: the pins handed to repinFromPeer so far (call-history ghost, kept by the callers)
 //@ ghost var repinOffered set[*api.Pin]
 //@ func (c *Cluster) repinFromPeer
